@@ -1,7 +1,6 @@
 package drv
 
 import (
-	"sync/atomic"
 	"encoding/json"
 	"fmt"
 	"math/rand"
@@ -9,6 +8,7 @@ import (
 	"runtime"
 	"strings"
 	"sync"
+	"sync/atomic"
 	"testing"
 	"testing/synctest"
 	"time"
